@@ -93,6 +93,28 @@ theorem C01_caller_gets_own_reply (s0 s : Loop.St) (D : Bytes) (h0 : Loop.AfterG
       (Loop.replyWrites s.obs)[i]? = some (Loop.Consumer.reply id) :=
   Loop.caller_gets_own_reply s0 s D h0 hr srv hwf tail hD id r hmem
 
+/-- **the reply the server produced for that request** (byte level, all runs, in-order server).
+An in-order server answers the reply-producing lines it receives one by one: its i-th reply is its
+answer to the i-th such line. `R id` is what it answers to the request with ghost id `id` (any
+well-formed response; replies to `idle` and `password` are whatever they are). Then, whatever the
+segmentation, the `select!` order, the cancellations and the timing, the response a caller is handed
+for request `id` is exactly `view (R id)` — never an idle reply, never another caller's. -/
+theorem C01_own_reply_for_in_order_server (s0 s : Loop.St) (D : Bytes) (h0 : Loop.AfterGreeting s0)
+    (hr : Loop.Run s0 s D) (R : Nat → Spec.AbsResp)
+    (srv : List Spec.AbsResp) (hwf : ∀ r ∈ srv, Spec.WF r = true) (tail : Bytes)
+    (hD : D ++ tail = srv.flatMap Spec.enc)
+    (hinorder : ∀ (i : Nat) (id : Nat), (Loop.replyWrites s.obs)[i]? = some (Loop.Consumer.reply id) → ∀ a, srv[i]? = some a → a = R id)
+    (id : Nat) (r : Builder.Response) (hmem : (id, r) ∈ Loop.responses s.obs) :
+    r = Loop.viewResp (R id) := by
+  obtain ⟨i, h1, h2⟩ := C01_caller_gets_own_reply s0 s D h0 hr srv hwf tail hD id r hmem
+  rw [List.getElem?_map] at h1
+  cases hsi : srv[i]? with
+  | none => rw [hsi] at h1; simp at h1
+  | some a =>
+    rw [hsi] at h1
+    simp only [Option.map_some, Option.some.injEq] at h1
+    rw [← h1, hinorder i id h2 a hsi]
+
 /-! ### non-vacuity: a concrete run — idle, a request arrives, `noidle`, the idle reply, the request,
 its reply — satisfies the premises, and the caller's result is what the theorem says -/
 namespace Example
@@ -148,6 +170,25 @@ example : AfterGreeting s0 :=
 /-- what the run observed: the event, then the caller's own reply -/
 example : (eventsOf s7.obs, (responses s7.obs).map (·.1), replyWrites s7.obs) =
     ([str "mixer"], [1], [.idle, .reply 1]) := by decide +kernel
+
+/-- the in-order server of this run: its answer to `idle` (a change of `mixer`), then its answer to
+request 1 -/
+def srv7 : List Spec.AbsResp :=
+  [{ listForm := false, frames := [{ fields := [(str "changed", str "mixer")] }] },
+   { listForm := false, frames := [{ fields := [(str "foo", str "bar")] }] }]
+
+/-- `C01_own_reply_for_in_order_server` applies to this run (its premises hold), and says that the
+caller of request 1 was handed the view of the server's answer to request 1 -/
+example : ∀ r, (1, r) ∈ responses s7.obs → r = viewResp (srv7.getD 1 default) := by
+  intro r hr
+  refine C01_own_reply_for_in_order_server s0 s7 _ ⟨by decide, by simp [resid, σcur, s0], by simp [responses, s0],
+      by simp [eventsOf, s0], by simp [replyWrites, outstanding, s0]⟩ run7 (fun _ => srv7.getD 1 default) srv7
+    (by decide +kernel) [] (by decide +kernel) ?_ 1 r hr
+  intro i id h a ha
+  have hw : replyWrites s7.obs = [.idle, .reply 1] := by decide +kernel
+  rw [hw] at h
+  match i, h with
+  | 1, _ => simp [srv7] at ha ⊢; exact ha.symm
 
 end Example
 
